@@ -847,3 +847,32 @@ Proof.
         -- left. right. exact H1.
         -- destruct H1 as [H1|H1]; [left; left; exact H1|right; exact H1].
 Qed.
+
+(** * every reachable defragmenter state: the run of the implementation state alone ([srun])
+    and with the ghost logs ([drun]); the invariant [DInv] holds after every history. *)
+Fixpoint srun {B : Type} (qs : list (queue B)) (fs : list (frame B)) : list (queue B) :=
+  match fs with
+  | [] => qs
+  | f :: rest => let '(qs', _, _) := recv_frame qs f in srun qs' rest
+  end.
+Fixpoint drun {B : Type} (qs : list (queue B)) (logs : list (list (frame B))) (fs : list (frame B))
+  : list (queue B) * list (list (frame B)) :=
+  match fs with
+  | [] => (qs, logs)
+  | f :: rest => let '(qs', r, ev) := recv_frame qs f in drun qs' (step_logs logs ev r f) rest
+  end.
+Lemma drun_srun {B : Type} (fs : list (frame B)) : forall qs logs, fst (drun qs logs fs) = srun qs fs.
+Proof.
+  induction fs as [|f fs IH]; intros qs logs; cbn [drun srun]; [reflexivity|].
+  destruct (recv_frame qs f) as [[qs' r] ev]. apply IH.
+Qed.
+Lemma drun_inv {B : Type} (fs : list (frame B)) : forall qs logs,
+  DInv qs logs -> qs <> [] ->
+  DInv (fst (drun qs logs fs)) (snd (drun qs logs fs)) /\ length (fst (drun qs logs fs)) = length qs.
+Proof.
+  induction fs as [|f fs IH]; intros qs logs D Hne; cbn [drun]; [split; [exact D|reflexivity]|].
+  destruct (recv_frame qs f) as [[qs' r] ev] eqn:E.
+  destruct (recv_frame_spec qs logs f qs' r ev D Hne E) as (D' & Hne' & _).
+  destruct (IH qs' _ D' Hne') as (I1 & I2). split; [exact I1|].
+  rewrite I2. eapply recv_frame_length; eauto.
+Qed.
